@@ -521,7 +521,7 @@ func (c *SpecCtx) evalBin(x *EBin) (Val, types.Type) {
 	case "-":
 		return tSub(a, b), mathInt
 	case "*":
-		return app(SInt, "*", a, b), mathInt
+		return e.tMul(a, b), mathInt
 	case "/":
 		return app(SInt, "div", a, b), mathInt
 	case "%":
@@ -931,6 +931,26 @@ func (c *SpecCtx) locations(x Expr) []assignTarget {
 			}
 			out = append(out, assignTarget{comp: e.mapHasComp(mt), ref: v.(Term)}, assignTarget{comp: e.mapLenComp(mt), ref: v.(Term)})
 			return out
+		case "allbut":
+			// everything may change except the fields of the listed struct types (on any object)
+			// and the caller's unescaped locals
+			keepNames := map[string]bool{}
+			for _, a := range x.Args {
+				var tn string
+				switch b := a.(type) {
+				case *EIdent:
+					tn = b.Name
+				case *ESel:
+					if id, ok := b.X.(*EIdent); ok {
+						tn = id.Name + "." + b.Name
+					}
+				case *EStr:
+					tn = b.V
+				}
+				t := c.resolveType(tn)
+				e.allFieldCompNames(t, keepNames)
+			}
+			return []assignTarget{{whole: true, allBut: keepNames}}
 		case "reach":
 			// everything reachable from the pointer held by an interface-typed argument, by the
 			// static type at the call site (reflection-based decoders write there)
